@@ -16,6 +16,9 @@ open Moc
 
 theorem prefix_order_pinned : prefixOrderActual = prefixOrderExpected := by rfl
 
+/-- `ParseClientMsg`'s dispatch is the one `parseClientMsg` follows -/
+theorem parse_dispatch_pinned : Gen.parseClientMsgBody = parseClientMsgExpected := by rfl
+
 /-! ### list helpers -/
 
 theorem decStrsStrict_map (l : List String) : decStrsStrict (l.map JT.str) = .ok l := by
